@@ -15,6 +15,13 @@ extern "C" {
 }
 #include "prog.hpp"
 
+// The library's own regcomp/regfree calls are counted through link-time wrappers (C04: compiled expressions bypass the memhook);
+// the model's expressions go to the real functions directly.
+extern "C" int __real_regcomp(regex_t *, const char *, int);
+extern "C" void __real_regfree(regex_t *);
+static inline int h_regcomp(regex_t *r, const char *p, int f) { return __real_regcomp(r, p, f); }
+static inline void h_regfree(regex_t *r) { __real_regfree(r); }
+
 namespace model {
 
 enum { PRIO_LOW = 1, PRIO_NORM = 2, PRIO_HIGH = 4 };
